@@ -53,12 +53,15 @@ ModelAct(ev) ==
       [] ev.e = "Stanza"   -> Stanza(ev.k, ev.f, ev.t)
       [] OTHER             -> FALSE
 
-(* model outputs and logged observations in one shape *)
+(* model outputs and logged observations in one shape.  Logged addresses carry, besides the    *)
+(* [u, d, r] the model talks about (r with the random Bind 2 suffix normalised), the lossless  *)
+(* decomposition [u, at, d, sl, rr] of the string as received (harness/rawclient.h).           *)
+UDR(j) == [u |-> j.u, d |-> j.d, r |-> j.r]
 Proj == [att |-> out, vic |-> dlv, sig |-> sig, closed |-> c.phase = "closed"]
 Obs(ev) ==
-    [att |-> [i \in 1..Len(ev.att) |-> [k |-> ev.att[i].k, t |-> ev.att[i].t, j |-> ev.att[i].j]],
-     vic |-> [i \in 1..Len(ev.vic) |-> [k |-> ev.vic[i].k, f |-> ev.vic[i].f, to |-> ev.vic[i].to]],
-     sig |-> ev.sig, closed |-> ev.closed]
+    [att |-> [i \in 1..Len(ev.att) |-> [k |-> ev.att[i].k, t |-> ev.att[i].t, j |-> UDR(ev.att[i].j)]],
+     vic |-> [i \in 1..Len(ev.vic) |-> [k |-> ev.vic[i].k, f |-> UDR(ev.vic[i].f), to |-> UDR(ev.vic[i].to)]],
+     sig |-> [i \in 1..Len(ev.sig) |-> [s |-> ev.sig[i].s, j |-> UDR(ev.sig[i].j)]], closed |-> ev.closed]
 
 (* --- monitor ---------------------------------------------------------------- *)
 Idx(s) == 1..Len(s)
@@ -71,7 +74,18 @@ LastIdIdx(ev) == {n \in Idx(ev.att) : (IsBindResult(ev.att[n]) \/ ev.att[n].k = 
 
 MonNext(m, ev) ==
     [appr |-> m.appr \cup {ev.chk[i].user : i \in {n \in Idx(ev.chk) : ev.chk[n].ev = "fin" /\ ev.chk[n].ok}},
-     res  |-> IF LastIdIdx(ev) = {} THEN m.res ELSE ev.att[CHOOSE n \in LastIdIdx(ev) : TRUE].j.r]
+     res  |-> IF LastIdIdx(ev) = {} THEN m.res ELSE ev.att[CHOOSE n \in LastIdIdx(ev) : TRUE].j.rr]
+
+\* The from of a routed stanza, compared EXACTLY (as a string) with the sender's own address:
+\* user@domain of an approved user, alone or followed by "/" and exactly the resource (as received,
+\* case and all) that the server last reported to this connection.  A trailing slash, another
+\* resource of the same account, a longer resource, another case, a missing "@" all fail.
+P_FromExact(f, appr, res) ==
+    /\ f.u \in appr /\ f.at /\ f.d = Domain
+    /\ \/ ~f.sl /\ f.rr = ""
+       \/ f.sl /\ res # "" /\ f.rr = res
+\* an address the server assigns / announces: approved user, served domain, well-formed
+P_IdentityExact(j, appr) == j.u \in appr /\ j.at /\ j.d = Domain /\ (j.sl => j.rr # "")
 
 Props == {"AuthOnlyApproved", "BindOnlyAuthed", "IdentityApproved", "AnswersOnlyAuthed", "RoutedOnlyAuthed", "RoutedStamped"}
 
@@ -83,19 +97,19 @@ Failed(n, ev) ==
                  n.appr = {} /\ ((\E i \in Idx(ev.att) : IsBindResult(ev.att[i]) /\ ev.att[i].t = "result")
                                  \/ \E i \in Idx(ev.sig) : ev.sig[i].s = "connected")
           [] p = "IdentityApproved" ->       \* accepted / bound as somebody the verdicts do not cover
-                 n.appr # {} /\ \E j \in Ids(ev) : ~P_Identity(j, n.appr)
+                 n.appr # {} /\ \E j \in Ids(ev) : ~P_IdentityExact(j, n.appr)
           [] p = "AnswersOnlyAuthed" ->      \* a stanza answered before authentication
                  n.appr = {} /\ \E i \in Idx(ev.att) : ev.att[i].k \in StanzaKinds /\ ~IsBindResult(ev.att[i])
           [] p = "RoutedOnlyAuthed" ->       \* a stanza routed before authentication
                  n.appr = {} /\ \E i \in Idx(ev.vic) : ev.vic[i].k \in StanzaKinds
           [] p = "RoutedStamped" ->          \* routed with a from that is not the sender's own address
-                 n.appr # {} /\ \E i \in Idx(ev.vic) : ev.vic[i].k \in StanzaKinds /\ ~P_From(ev.vic[i].f, n.appr, n.res)}
+                 n.appr # {} /\ \E i \in Idx(ev.vic) : ev.vic[i].k \in StanzaKinds /\ ~P_FromExact(ev.vic[i].f, n.appr, n.res)}
 
 \* whose address was wrongly assigned / stamped (user part; "" = nobody's), for the report
 Who(p, n, ev) ==
-    CASE p = "IdentityApproved" -> (CHOOSE j \in Ids(ev) : ~P_Identity(j, n.appr)).u
+    CASE p = "IdentityApproved" -> (CHOOSE j \in Ids(ev) : ~P_IdentityExact(j, n.appr)).u
       [] p = "RoutedStamped" ->
-             ev.vic[CHOOSE i \in Idx(ev.vic) : ev.vic[i].k \in StanzaKinds /\ ~P_From(ev.vic[i].f, n.appr, n.res)].f.u
+             ev.vic[CHOOSE i \in Idx(ev.vic) : ev.vic[i].k \in StanzaKinds /\ ~P_FromExact(ev.vic[i].f, n.appr, n.res)].f.u
       [] OTHER -> ""
 
 ResetStep(ev) ==
